@@ -134,7 +134,7 @@ def generate(seed, tier):
     ops = [{"op": "connect", "mode": "dry" if rng.random() < 0.12 else "visa"}]
     w = {"set_freq": 3, "set_patt_len": 3, "set_output_voltage": 4, "set_offset": 4, "set_skew": 3, "set_prbs_order": 2,
          "set_bits_shift": 1, "set_mode": 1, "outputs": 1, "set_data": 5, "get_data": 4, "get": 2, "call": 2, "reset": 1,
-         "filters": 1, "badtype": 1, "sync": rng.choice([0, 2, 4]), "sync_short": 1}
+         "filters": 1, "badtype": 1, "sync": rng.choice([0, 2, 4]), "sync_short": 1, "rewrite": 2}
     kinds = [k for k, c in w.items() for _ in range(c)]
     for _ in range(rng.randint(8, 30)):
         if rng.random() < fault_rate:
@@ -216,14 +216,21 @@ def generate(seed, tier):
         elif k == "sync":
             nsl = rng.choice([32, 40, 64, 127, 128])
             sps = rng.choice([2, 4, 8, 16])
+            if rng.random() < 0.06:
+                nsl, sps = rng.choice([(2047, 16), (2047, 8), (8191, 4), (1023, 32)])      # long patterns
             L = nsl * sps
             ops.append({"op": "sync", "nslots": nsl, "sps": sps, "pseed": rng.getrandbits(32),
-                        "d": rng.choice([0, 1, sps - 1, sps, L - 1, L // 2, rng.randrange(L), rng.randrange(L)]),
+                        "d": rng.choice([0, 1, sps - 1, sps, L - 1, L // 2, rng.randrange(L), rng.randrange(L),
+                                         L - 1 - rng.randrange(max(1, L // 8))]),
                         "sigma": rng.choice([0.0, 0.01, 0.05, 0.1]), "nseed": rng.getrandbits(32),
                         "prefix": rng.choice(["periodic", "silence"]), "form": rng.choice(["es", "arr", "both"]),
                         "tx": rng.choice(["bs", "arr"]), "amp": rng.choice([1.0, 0.05, 2.0]),
                         "off": 0.0, "reps": rng.choice([3, 3, 4]), "short": rng.random() < 0.3,
                         "extra": rng.random()})
+        elif k == "rewrite":
+            olds = [o for o in ops if o.get("op") == "set_data"]
+            if olds:
+                ops.append(dict(rng.choice(olds), readback=True))      # the same pattern written again later
         elif k == "sync_short":
             ops.append({"op": "sync_short", "nslots": rng.choice([32, 64]), "sps": rng.choice([2, 8]),
                         "cut": rng.choice([1, 2, 100]), "form": rng.choice(["es", "arr"])})
